@@ -97,6 +97,25 @@ CLAIMS = {
         note=NOTE_COMMON + "Handlers are deterministic functions of the message; the handlers map is read-only (checked in the real-socket run).",
         technique="Lean 4 proof (induction over chunk lists with a well-founded read loop) + differential correspondence through a scripted socket",
         design="DESIGN.md §5 C16"),
+    'C17': dict(
+        text="In the model the three process-wide defaults are one explicit value d : Defaults passed to exactly the functions whose Python counterparts call get_default_*. "
+             "After the repairs of findings D12, D14, D15 only parse_message reads it, and only for the version when MSH-12 is absent: proved that parse_message is "
+             "independent of d whenever the text states its version, and recorded (as a theorem about the signatures) that factory, parse_segment/field/component, "
+             "assignment, encoders and check_encoding_chars take no Defaults at all. That the CODE reads defaults nowhere else is checked by sweeping "
+             "set_default_version/level/encoding_chars (all 72 settings in the thorough tier) around a corpus of explicit-argument calls: results must agree with each "
+             "other and with the model given the same Defaults; existing elements must not change when defaults do.",
+        note=NOTE_COMMON + "A parentless element encoded or assigned without a delimiter argument reads the default by documented design (outside 'given explicitly').",
+        technique="Lean 4 proof (defaults as an explicit parameter; independence by construction and by unfolding) + defaults-sweep differential correspondence",
+        design="DESIGN.md §5 C17"),
+    'C19': dict(
+        text="PARTIAL BY NATURE. Proved: for threads whose atomic steps write no shared state, EVERY schedule gives every thread exactly its solo result and never changes "
+             "the shared state (any number of threads, any schedule); the model's API entry points are functions of (shared tables, arguments) and hence read-only steps; "
+             "the variant of datatype_factory that overrides the shared BASE_DATATYPES map in place (the defect fixed in hl7apy 1.3.5) is not read-only and breaks a later "
+             "call (kernel-checked). Checked on /repo, not proved: the real calls write no shared state (recording BASE_DATATYPES maps, before/after comparison of every "
+             "module-level table and default) and a thread stress run with a 1 microsecond switch interval reproduces the sequential results call by call.",
+        note=NOTE_COMMON + "CPython bytecode interleaving, the import lock and the GIL are runtime behaviour the model cannot exhibit; the stress run is a search, not a proof.",
+        technique="Lean 4 proof (induction over schedules) + shared-write monitor and thread stress on the implementation",
+        design="DESIGN.md §5 C19"),
 }
 
 PENDING = {}
